@@ -8,6 +8,19 @@ RAU = "state_machine::RebootAfterUpdate"
 K = {"plan": "install_plan_id", "first": "update_first_seen_time", "finish": "update_finish_time", "target": "target_version", "attempts": "consecutive_failed_install_attempts"}
 
 
+def _stored_plus_one(v):
+    """stored + 1 in any spelling, where stored = get_int(consecutive_failed_install_attempts).unwrap_or(0)"""
+    v = v.strip()
+    if v.startswith("cast<IntToInt>(") and v.endswith(")"):
+        v = v[len("cast<IntToInt>("):-1]
+    for op, suffix in (("AddWithOverflow(", ", 1).0"), ("saturating_add(", ", 1)"), ("Add(", ", 1)")):
+        if v.startswith(op) and v.endswith(suffix):
+            x = v[len(op):-len(suffix)]
+            if x.startswith("unwrap_or(poll(get_int(") and x.endswith("@Ready.0, 0)") and "'consecutive_failed_install_attempts'" in x and x.count("get_int(") == 1:
+                return True
+    return False
+
+
 def nodes_of(S, bv, bi):
     return [n.idx for n in S.nodes if n.ctx.bv is bv and n.bi == bi and n.idx in S.live]
 
@@ -138,14 +151,14 @@ def run(F, R):
             agg = [y for y in walk(t) if y[0] == "agg" and y[2] and y[2].endswith("Metrics::AttemptsToSuccessfulInstall")]
             if agg:
                 cnt = terms.render(hv, agg[0][3][agg[0][4].index("count")], W, {}) if nd.ctx.parent and nd.ctx.parent.bv is hv else fmt_t(agg[0][3][0])
-                R.check("C18-R2", "metric-count", "AddWithOverflow(unwrap_or(poll(get_int(" in cnt and "'consecutive_failed_install_attempts'" in cnt and cnt.endswith(", 1).0)"), cnt[:140], "AttemptsToSuccessfulInstall.count <- %s" % cnt[:160], nd.loc())
+                R.check("C18-R2", "metric-count", _stored_plus_one(cnt), cnt[:140], "AttemptsToSuccessfulInstall.count <- %s" % cnt[:160], nd.loc())
         rm = [k for k in bykey.get(K["attempts"], []) if k["name"] in ("remove_or_log", "remove")]
         st = [k for k in bykey.get(K["attempts"], []) if k["name"] == "set_int"]
         tr_e = [(a, b) for (a, b, tr) in hv.bool_edges(lambda t: strip(t) in (("param", 2),) or lib.apath(t).endswith("param1.1") or lib.apath(t) == "param1.1") if tr]
         fl_e = [(a, b) for (a, b, tr) in hv.bool_edges(lambda t: lib.apath(t) in ("param1.1", "param2")) if not tr]
         tr_e = [(a, b) for (a, b, tr) in hv.bool_edges(lambda t: lib.apath(t) in ("param1.1", "param2")) if tr]
         R.check("C18-R2", "remove-on-success", len(rm) == 1 and tr_e and hv.dominated_by_edge(rm[0]["bi"], tr_e), "removed exactly under success == true", "the counter is not removed exactly on success")
-        R.check("C18-R2", "increment-on-failure", len(st) == 1 and fl_e and hv.dominated_by_edge(st[0]["bi"], fl_e) and st[0]["value"].startswith("AddWithOverflow(unwrap_or(poll(get_int(") and st[0]["value"].endswith(", 1).0"),
+        R.check("C18-R2", "increment-on-failure", len(st) == 1 and fl_e and hv.dominated_by_edge(st[0]["bi"], fl_e) and _stored_plus_one(st[0]["value"]),
                 "set_int(stored + 1) exactly under success == false", "the counter is not incremented exactly on failure: %s" % (st[0]["value"][:120] if st else None))
 
     # ---------------------------------------------------------------- R3 durable before reboot
